@@ -538,6 +538,38 @@ fn significant(lang: &Lang, src: &str, toks: &[(u16, usize, usize)]) -> Vec<Stri
         .collect()
 }
 
+/// Signature of the recorded finding C12-lexer-context-dependent-literal: the inserted trivia changed the KIND
+/// of tokens whose text is unchanged, and every such token is a `#` form (`TOD#14:30:00`, `D#2024-01-15`, `T#1s`,
+/// `INT#` ...): the lexer labels a temporal / typed literal directly followed by `..` (or another continuation)
+/// as an Ident.  Any other kind flip (a keyword, an operator) is not this finding.
+fn lexer_context_literal_flips(src: &str, toks: &[(u16, usize, usize)], s2: &str, toks2: &[(u16, usize, usize)], lang: &Lang) -> Option<String> {
+    let a: Vec<&(u16, usize, usize)> = toks.iter().filter(|t| !lang.is_trivia(t.0)).collect();
+    let b: Vec<&(u16, usize, usize)> = toks2.iter().filter(|t| !lang.is_trivia(t.0)).collect();
+    if a.len() != b.len() {
+        return None;
+    }
+    let mut flips = Vec::new();
+    for (x, y) in a.iter().zip(b.iter()) {
+        let (tx, ty) = (&src[x.1..x.2], &s2[y.1..y.2]);
+        if tx != ty {
+            return None;
+        }
+        if x.0 != y.0 {
+            if !tx.contains('#') {
+                return None;
+            }
+            flips.push(format!("{tx}:{}->{}", x.0, y.0));
+        }
+    }
+    if flips.is_empty() {
+        None
+    } else {
+        Some(flips.join(","))
+    }
+}
+
+const LEXER_CONTEXT_WITNESS: &str = "PROGRAM p\nVAR a : ARRAY[TOD#14:30:00..DT#2024-01-15-14:30:00, 0..3] OF WORD; END_VAR\nEND_PROGRAM\n";
+
 /// Which boundaries of a text receive insertions.
 #[derive(Clone, Copy)]
 enum Bounds {
@@ -600,9 +632,11 @@ fn insertion_sweep(lang: &Lang, src: &str, shape: u64, pieces: &[&str], which: B
             match observe_light(&s2, true) {
                 Some(q) => {
                     if let Some((a, b, m)) = &q.first_error {
-                        fails.push(format!("trivia-insertion introduces errors: {piece:?} inserted at offset {at} of the error-free text {src:?} gives {s2:?} with {} error(s), first {a}..{b} {m:?}", q.n_errors));
+                        let tag = lexer_context_literal_flips(src, &toks, &s2, &toks2, lang).map(|fl| format!(" [lexer-context-literal {fl}]")).unwrap_or_default();
+                        fails.push(format!("trivia-insertion introduces errors{tag}: {piece:?} inserted at offset {at} of the error-free text {src:?} gives {s2:?} with {} error(s), first {a}..{b} {m:?}", q.n_errors));
                     } else if q.shape != shape {
-                        fails.push(format!("trivia-insertion changes shape: {piece:?} inserted at offset {at} of the error-free text {src:?} gives {s2:?} with another tree shape"));
+                        let tag = lexer_context_literal_flips(src, &toks, &s2, &toks2, lang).map(|fl| format!(" [lexer-context-literal {fl}]")).unwrap_or_default();
+                        fails.push(format!("trivia-insertion changes shape{tag}: {piece:?} inserted at offset {at} of the error-free text {src:?} gives {s2:?} with another tree shape"));
                     } else if !q.text_eq {
                         fails.push(format!("trivia-insertion: tree text differs: {piece:?} inserted at offset {at} of {src:?}"));
                     }
@@ -934,6 +968,10 @@ pub fn run_case(n: u64, input: &CaseInput, lang: &Lang, out: &mut Out, dump: boo
             }
             None => fails.push("impure-second-parse-panicked".into()),
         }
+        if src == LEXER_CONTEXT_WITNESS && p.errors.is_empty() {
+            let (_, f) = insertion_sweep(lang, src, p.dump.shape, &[" ", "(* c *)"], Bounds::Significant, 4);
+            fails.extend(f);
+        }
         // trivia insertion (error-free inputs only)
         if p.errors.is_empty() {
             if let Some(toks) = &toks {
@@ -971,7 +1009,10 @@ pub fn run_case(n: u64, input: &CaseInput, lang: &Lang, out: &mut Out, dump: boo
                         Some(q) => {
                             out.count("insertion_checked");
                             if q.dump.shape != p.dump.shape {
-                                fails.push(format!("trivia-insertion changes shape ins={ins:?}"));
+                                match lexer_context_literal_flips(src, toks, &s2, &toks2, lang) {
+                                    Some(fl) => fails.push(format!("trivia-insertion changes shape [lexer-context-literal {fl}] ins={ins:?}")),
+                                    None => fails.push(format!("trivia-insertion changes shape ins={ins:?}")),
+                                }
                             } else if !q.errors.is_empty() {
                                 fails.push(format!("trivia-insertion introduces errors ins={ins:?} errs={:?}", q.errors));
                             }
@@ -3070,6 +3111,9 @@ pub fn gen_case(seed: u64, n: u64, ctx: &Ctx) -> CaseInput {
         "PROGRAM", "END_PROGRAM", ";", "PROGRAM p x := ; END_PROGRAM", "\0", "\u{1F600}", "a.1.2", "%IX0.", "T#1s.", "16#FF.", "1.\n.", "1. .", "1.(*c*).",
         // unterminated / nested comments, pragmas and strings that end in a multi-byte character
         "(* \u{e9}", "/* x \u{1F600}", "(* (* \u{e9} *)", "/* /* */ \u{4e2d}", "(*\u{e9}", "x (* a *) (* \u{1F600}", "{ \u{e9}", "'\u{e9}", "\"\u{1F600}", "// \u{e9}", "(* \u{e9} *)", "(**\u{e9}*",
+        // witness of C12-lexer-context-dependent-literal (must stay the LAST entry): error-free, and `TOD#14:30:00`
+        // directly before `..` is labelled Ident; swept exhaustively in run_case
+        LEXER_CONTEXT_WITNESS,
     ];
     if (n as usize) < FIXED.len() {
         return CaseInput {
